@@ -88,6 +88,8 @@ def registration(cls):
         raise Unsupported("table name: " + ast.unparse(s_n.value))
     T = _tname(s_t)
     v = s_t.value
+    if isinstance(v, ast.IfExp) and ast.unparse(v.test) == "event_hook.time is None":        # the same choice, written the other way round
+        v = ast.IfExp(test=ast.parse("event_hook.time is not None", mode="eval").body, body=v.orelse, orelse=v.body)
     if not (isinstance(v, ast.IfExp) and ast.unparse(v.test) == "event_hook.time is not None"):
         raise Unsupported("times: " + ast.unparse(v)[:100])
 
